@@ -5611,7 +5611,11 @@ oid_parsing_done:
                 stringOut[llen + i] = '\0';
             }
 
-            if (checkHiddenNull)
+            /* A BIT STRING may carry any octets, but the commonName is
+               compared with the expected peer name as a C string whatever
+               type it was encoded with: a NUL inside it would hide the
+               rest of the name from that comparison. */
+            if (checkHiddenNull || id == ATTRIB_COMMON_NAME)
             {
                 if ((uint32) Strlen(stringOut) != llen)
                 {
